@@ -31,7 +31,40 @@ var c07Failing = []struct {
 	{"{% assign = %}", true, "="},
 	{"{% endif %}", true, "endif"},
 	{"{% if true %}", true, "if"},
+	// an unterminated comment or raw block swallows the rest, enclosing end tags included: it is the
+	// innermost failing tag wherever it is nested
+	{"{% comment %}x", true, "comment"},
+	{"{% raw %}x", true, "raw"},
 }
+
+// c07Filler returns a well-formed multi-line piece placed before the failing construct: tags and
+// objects whose line breaks sit in every position of the token (next to the delimiters, between the
+// tag name and its arguments, inside the arguments), with the whitespace bytes chosen by the solver
+// among space and newline where noted.
+func c07Filler(k int) string {
+	w := func() string { return nd.StringFrom(1, " \n") }
+	switch k {
+	case 1:
+		return "{% assign x = 1\n%}"
+	case 2:
+		return "{% assign\n x = 1 %}\n"
+	case 3:
+		return "{{\n 1\n}}"
+	case 4:
+		return "{%\nif true\n%}y{% else\n%}{%\n\nendif\n%}"
+	case 5:
+		return "{{ 1 |\n plus: 1 }}{% raw %}\n{{\n{% endraw\n%}{% comment\n%}\n{% endcomment %}"
+	case 6:
+		return "{%" + w() + "assign" + w() + "x = 1" + w() + "%}"
+	case 7:
+		return "{{" + w() + "1" + w() + "}}" + w()
+	case 8:
+		return "{%-" + w() + "if true" + w() + "-%}" + w() + "{%" + w() + "endif" + w() + "%}"
+	}
+	return ""
+}
+
+const c07Fillers = 9
 
 var c07Prefixes = []string{"", "a\n", "a\n\nb", "{% if true %}\n", "{% for i in (1..1) %}\n x\n{% if i %}", "{% capture c %}\n\n", "{% unless false %}{% case 1 %}{% when 1 %}\n"}
 var c07Suffixes = []string{"", "", "", "{% endif %}", "{% endif %}{% endfor %}", "{% endcapture %}", "{% endcase %}{% endunless %}"}
@@ -56,6 +89,7 @@ func VerifC07Template() {
 	}
 	start := nd.Int()
 	nd.Assume(start >= 0 && start < 1<<40)
+	pre += c07Filler(nd.Choice(c07Fillers))
 	src := pre + f.src + "\ntail" + suf
 	want := start + strings.Count(pre, "\n")
 	e := NewEngine()
